@@ -11,7 +11,12 @@
      G3  the count is only raised with the token in hand (or on a repository nobody else can see yet);
      G4  a collection waits for the count only with the token in hand (Close, which first refuses new requests, is listed);
      G5  a frame (handler closure, helper) that obtains a repository releases it exactly once on every path to every return,
-         and never releases one it did not obtain.
+         and never releases one it did not obtain;
+     L1  a frame returns, on every path, without any mutex it locked itself (deferred unlocks run at the return; the `locked`
+         flags of the code - parameters and locals of that name, compared and assigned literally - are followed, so that
+         `if !locked { Lock; defer Unlock }` and `locked = false` after an early Unlock are understood);
+     L2  it never unlocks a mutex it does not hold at that point, L3 never locks one it already holds;
+         the PrunePreFn / PruneFn / PrunePostFn callbacks of a cache are one frame, run in that order by the cache.
    The second half models the gate as a transition system over threads and proves that under these rules the token is never
    duplicated or lost, the count equals the number of outstanding handles, nobody raises the count while a collection holds
    the token, and with no thread inside RepoGet / a collection the token is back in the channel. *)
@@ -24,6 +29,8 @@ Inductive gst :=
 | GAdd (c : string) | GDone (c : string) | GWait (c : string)
 | GNew (c : string)
 | GGet | GRel
+| GLock (c : string) | GUnlock (c : string)
+| GSetVar (v : string) (b : bool)   (* locked = true / false *)
 | GRet (k : string)                 (* "nil": first result is the nil literal; "val": something else; "none": no results *)
 | GBrk (n : nat)                    (* 0: leaves the innermost switch / select; 1: ends the iteration of the innermost loop *)
 | GPanic
@@ -34,23 +41,50 @@ Inductive gst :=
 | GLoop (b : list gst)
 | GClosure (b : list gst)           (* go statement / function literal: a frame of its own *)
 | GInline (b : list gst)            (* function literal called on the spot: same thread, its returns end the literal *)
-| GDefer (b : list gst).
+| GIfVar (v : string) (neg : bool) (t e : list gst)   (* if v { t } else { e }   /   if !v { t } else { e } *)
+| GDefer (n : nat) (b : list gst).  (* n: number of the defer statement within the function *)
 
 Fixpoint gsize (g : gst) : nat :=
   let ls := fix ls (l : list gst) : nat := match l with [] => 1%nat | x :: r => (gsize x + ls r)%nat end in
   match g with
-  | GIf t e | GGetIf t e => S (ls t + ls e)
+  | GIf t e | GGetIf t e | GIfVar _ _ t e => S (ls t + ls e)
   | GAlt cs => S ((fix lls (l : list (list gst)) : nat := match l with [] => 1%nat | x :: r => (ls x + lls r)%nat end) cs)
-  | GLoop b | GClosure b | GInline b | GDefer b => S (ls b)
+  | GLoop b | GClosure b | GInline b | GDefer _ b => S (ls b)
   | _ => 1%nat
   end.
 Definition lsize (l : list gst) : nat := fold_right (fun g n => (gsize g + n)%nat) 1%nat l.
 
-Record gstate := mkG { tok : Z; ref : Z; hnd : Z; fresh : bool }.
-Definition g0 : gstate := mkG 0 0 0 false.
+Record gstate := mkG { tok : Z; ref : Z; hnd : Z; fresh : bool;
+                       held : list string;              (* mutex classes locked by this frame *)
+                       vars : list (string * bool);     (* what is known of the `locked` flags *)
+                       dfr : list nat }.                (* pending defer statements, last first *)
+Definition g0 : gstate := mkG 0 0 0 false [] [] [].
+
+Fixpoint list_eqb {A} (eq : A -> A -> bool) (a b : list A) : bool :=
+  match a, b with
+  | [], [] => true
+  | x :: r, y :: q => eq x y && list_eqb eq r q
+  | _, _ => false
+  end.
 
 Definition gstate_eqb (a b : gstate) : bool :=
-  (tok a =? tok b) && (ref a =? ref b) && (hnd a =? hnd b) && Bool.eqb (fresh a) (fresh b).
+  (tok a =? tok b) && (ref a =? ref b) && (hnd a =? hnd b) && Bool.eqb (fresh a) (fresh b)
+  && list_eqb String.eqb (held a) (held b)
+  && list_eqb (fun x y => String.eqb (fst x) (fst y) && Bool.eqb (snd x) (snd y)) (vars a) (vars b)
+  && list_eqb Nat.eqb (dfr a) (dfr b).
+
+Definition set_tok (s : gstate) (z : Z) := mkG z (ref s) (hnd s) (fresh s) (held s) (vars s) (dfr s).
+Definition set_ref (s : gstate) (z : Z) := mkG (tok s) z (hnd s) (fresh s) (held s) (vars s) (dfr s).
+Definition set_hnd (s : gstate) (z : Z) := mkG (tok s) (ref s) z (fresh s) (held s) (vars s) (dfr s).
+Definition set_fresh (s : gstate) := mkG (tok s) (ref s) (hnd s) true (held s) (vars s) (dfr s).
+Definition set_held (s : gstate) (h : list string) := mkG (tok s) (ref s) (hnd s) (fresh s) h (vars s) (dfr s).
+Definition set_dfr (s : gstate) (d : list nat) := mkG (tok s) (ref s) (hnd s) (fresh s) (held s) (vars s) d.
+Definition set_var (s : gstate) (v : string) (b : bool) :=
+  mkG (tok s) (ref s) (hnd s) (fresh s) (held s) ((v, b) :: filter (fun x => negb (String.eqb (fst x) v)) (vars s)) (dfr s).
+Fixpoint get_var (v : string) (l : list (string * bool)) : option bool :=
+  match l with [] => None | (k, b) :: r => if String.eqb k v then Some b else get_var v r end.
+Fixpoint remove_first_s (c : string) (l : list string) : list string :=
+  match l with [] => [] | x :: r => if String.eqb x c then r else x :: remove_first_s c r end.
 
 Fixpoint add_state (s : gstate) (l : list gstate) : list gstate :=
   match l with
@@ -76,11 +110,19 @@ Definition o_merge (a b : gout) : gout :=
 (* functions that wait for the count without the token: Close, after it closed the stop channel that RepoGet checks *)
 Definition wait_without_token : list string := ["store.dir.Close"; "store.mem.Close"].
 
+(* a return with a mutex held on a path that cannot be taken: dir.Close returns early, with the store mutex, when listing the
+   repository cache fails - Cache.List fails only for a nil cache, and the store's cache is created with the store *)
+Definition locked_return_unreachable : list (string * string) := [("store.dir.Close", "dir.mu")].
+
 Section Exec.
   Variable fn : string.
+  Variable dtab : list (nat * list gst).      (* the defer statements of the function, by number *)
+
+  Fixpoint dlookup (n : nat) (l : list (nat * list gst)) : option (list gst) :=
+    match l with [] => None | (k, b) :: r => if Nat.eqb k n then Some b else dlookup n r end.
 
   Definition check_ret (kind : string) (k : string) (s : gstate) : list string :=
-    if String.eqb kind "get" then
+    (if String.eqb kind "get" then
       if String.eqb k "val" then
         (if (ref s =? 1) then [] else ["G2: RepoGet returns a repository without having counted exactly one reference"])
         ++ (if (tok s =? (if fresh s then -1 else 0)) then [] else ["G1: RepoGet returns a repository whose token is not in the channel"])
@@ -99,43 +141,64 @@ Section Exec.
       (if (tok s =? 0) then [] else ["G1: returns with the token in its pocket (a take without a give on this path)"])
       ++ (if (ref s =? 0) then [] else ["G2: changes the reference count of a repository"])
       ++ (if (hnd s <=? 0) then [] else ["G5: returns without releasing a repository it obtained"])
-      ++ (if (0 <=? hnd s) then [] else ["G5: releases a repository it did not obtain"]).
+      ++ (if (0 <=? hnd s) then [] else ["G5: releases a repository it did not obtain"]))
+    ++ map (fun c => append "L1: returns with a mutex locked that it locked itself: " c)
+           (filter (fun c => negb (existsb (fun a => String.eqb (fst a) fn && String.eqb (snd a) c) locked_return_unreachable)) (held s)).
 
   Fixpoint exec (fuel : nat) (top : bool) (l : list gst) (st : gstate) {struct fuel} : gout :=
     match fuel with
     | O => o_bad "out of fuel"
     | S f =>
+        (* the deferred statements pending in [s], last first: the states after them *)
+        let run_defers := fix rd (ds : list nat) (ss : list gstate) (bads : list string) : list gstate * list string :=
+          match ds with
+          | [] => (ss, bads)
+          | n :: r =>
+              match dlookup n dtab with
+              | None => (ss, bads ++ ["unknown defer"])
+              | Some b =>
+                  let os := map (fun s => exec f false b s) ss in
+                  rd r (fold_left (fun a o => union_states a (union_states (ft o) (map snd (rets o)))) os [])
+                     (bads ++ List.concat (map bad os))
+              end
+          end in
+        (* a frame: its returns run its defers *)
+        let frame := fun (b : list gst) (s0 : gstate) =>
+          let o := exec f true b s0 in
+          fold_left (fun acc ks =>
+                       let r := run_defers (dfr (snd ks)) [set_dfr (snd ks) []] [] in
+                       (fold_left (fun a s => add_ret (fst ks, s) a) (fst r) (fst acc), snd acc ++ snd r))
+                    (rets o) ([], bad o ++ (match b0 o ++ b1 o with [] => [] | _ => ["break outside a loop"] end)) in
         match l with
         | [] => if top then mkO [] [] [] [("none", st)] [] else o_ft st
-        | GDefer b :: rest =>
-            if top then
-              let o := exec f true rest st in
-              (* the deferred statements run at every return that follows *)
-              fold_left (fun acc ks =>
-                           let ob := exec f false b (snd ks) in
-                           mkO [] (b0 acc) (b1 acc)
-                               (fold_left (fun a s => add_ret (fst ks, s) a) (ft ob ++ map snd (rets ob)) (rets acc))
-                               (bad acc ++ bad ob))
-                        (rets o) (mkO [] (b0 o) (b1 o) [] (bad o))
-            else o_bad "defer in a nested block"
         | x :: rest =>
             let ox :=
               match x with
-              | GTake _ => if tok st =? 0 then o_ft (mkG (tok st + 1) (ref st) (hnd st) (fresh st)) else o_bad "G1: takes the token while holding it"
-              | GGive _ => if (1 <=? tok st) || fresh st then o_ft (mkG (tok st - 1) (ref st) (hnd st) (fresh st)) else o_bad "G1: gives a token it does not hold"
-              | GAdd _ => if (1 <=? tok st) || fresh st then o_ft (mkG (tok st) (ref st + 1) (hnd st) (fresh st)) else o_bad "G3: counts a reference without the token"
-              | GDone _ => o_ft (mkG (tok st) (ref st - 1) (hnd st) (fresh st))
+              | GTake _ => if tok st =? 0 then o_ft (set_tok st (tok st + 1)) else o_bad "G1: takes the token while holding it"
+              | GGive _ => if (1 <=? tok st) || fresh st then o_ft (set_tok st (tok st - 1)) else o_bad "G1: gives a token it does not hold"
+              | GAdd _ => if (1 <=? tok st) || fresh st then o_ft (set_ref st (ref st + 1)) else o_bad "G3: counts a reference without the token"
+              | GDone _ => o_ft (set_ref st (ref st - 1))
               | GWait _ => if (1 <=? tok st) || existsb (String.eqb fn) wait_without_token then o_ft st else o_bad "G4: waits for the count without the token"
-              | GNew _ => if fresh st then o_bad "two repositories created on one path" else o_ft (mkG (tok st) (ref st) (hnd st) true)
-              | GGet => o_ft (mkG (tok st) (ref st) (hnd st + 1) (fresh st))
-              | GRel => o_ft (mkG (tok st) (ref st) (hnd st - 1) (fresh st))
+              | GNew _ => if fresh st then o_bad "two repositories created on one path" else o_ft (set_fresh st)
+              | GGet => o_ft (set_hnd st (hnd st + 1))
+              | GRel => o_ft (set_hnd st (hnd st - 1))
+              | GLock c => if existsb (String.eqb c) (held st) then o_bad (append "L3: locks a mutex it already holds: " c)
+                           else o_ft (set_held st (c :: held st))
+              | GUnlock c => if existsb (String.eqb c) (held st) then o_ft (set_held st (remove_first_s c (held st)))
+                             else o_bad (append "L2: unlocks a mutex it does not hold: " c)
+              | GSetVar v b => o_ft (set_var st v b)
               | GRet k => mkO [] [] [] [(k, st)] []
               | GBrk 0 => mkO [] [st] [] [] []
               | GBrk _ => mkO [] [] [st] [] []
               | GPanic => o_empty
               | GUnknown m => o_bad (append "not understood: " m)
               | GIf t e => o_merge (exec f false t st) (exec f false e st)
-              | GGetIf t e => o_merge (exec f false t st) (exec f false e (mkG (tok st) (ref st) (hnd st + 1) (fresh st)))
+              | GIfVar v neg t e =>
+                  match get_var v (vars st) with
+                  | Some b => if xorb b neg then exec f false t st else exec f false e st
+                  | None => o_merge (exec f false t (set_var st v (negb neg))) (exec f false e (set_var st v neg))
+                  end
+              | GGetIf t e => o_merge (exec f false t st) (exec f false e (set_hnd st (hnd st + 1)))
               | GAlt cs =>
                   let o := fold_left (fun acc c => o_merge acc (exec f false c st)) cs o_empty in
                   mkO (union_states (ft o) (b0 o)) [] (b1 o) (rets o) (bad o)
@@ -144,27 +207,60 @@ Section Exec.
                   let same := forallb (gstate_eqb st) (ft o ++ b1 o ++ b0 o) in
                   mkO [st] [] [] (rets o) (bad o ++ (if same then [] else ["an iteration of a loop changes the balance"]))
               | GClosure b =>
-                  let o := exec f true b g0 in
-                  mkO [st] [] [] []
-                      (bad o ++ List.concat (map (fun ks => check_ret "plain" (fst ks) (snd ks)) (rets o))
-                           ++ (match b0 o ++ b1 o with [] => [] | _ => ["break outside a loop"] end))
+                  let r := frame b g0 in
+                  mkO [st] [] [] [] (snd r ++ List.concat (map (fun ks => check_ret "plain" (fst ks) (snd ks)) (fst r)))
               | GInline b =>
-                  let o := exec f true b st in
-                  mkO (fold_left (fun a ks => add_state (snd ks) a) (rets o) []) [] [] [] (bad o)
-              | GDefer _ => o_empty
+                  (* same thread: the state carries over, the literal's own defers run at its returns *)
+                  let r := frame b (set_dfr st []) in
+                  mkO (fold_left (fun a ks => add_state (set_dfr (snd ks) (dfr st)) a) (fst r) []) [] [] [] (snd r)
+              | GDefer n _ => o_ft (set_dfr st (n :: dfr st))
               end in
             fold_left (fun acc s => o_merge acc (exec f top rest s)) (ft ox) (mkO [] (b0 ox) (b1 ox) (rets ox) (bad ox))
         end
     end.
 
+  (* the defers pending at a return of the function itself *)
+  Fixpoint run_defers_top (fuel : nat) (ds : list nat) (ss : list gstate) (bads : list string) : list gstate * list string :=
+    match ds with
+    | [] => (ss, bads)
+    | n :: r =>
+        match dlookup n dtab with
+        | None => (ss, bads ++ ["unknown defer"])
+        | Some b =>
+            let os := map (fun s => exec fuel false b s) ss in
+            run_defers_top fuel r (fold_left (fun a o => union_states a (union_states (ft o) (map snd (rets o)))) os [])
+                           (bads ++ List.concat (map bad os))
+        end
+    end.
+
   Definition check_frame (kind : string) (body : list gst) : list string :=
-    let o := exec (S (lsize body)) true body g0 in
-    bad o ++ List.concat (map (fun ks => check_ret kind (fst ks) (snd ks)) (rets o))
-        ++ (match b0 o ++ b1 o with [] => [] | _ => ["break outside a loop"] end).
+    let fuel := S (lsize body) in
+    let ob := exec fuel true body g0 in
+    let finals := fold_left (fun acc ks =>
+                               let r := run_defers_top fuel (dfr (snd ks)) [set_dfr (snd ks) []] [] in
+                               (fold_left (fun a s => add_ret (fst ks, s) a) (fst r) (fst acc), snd acc ++ snd r))
+                            (rets ob) ([], []) in
+    bad ob ++ snd finals ++ List.concat (map (fun ks => check_ret kind (fst ks) (snd ks)) (fst finals))
+        ++ (match b0 ob ++ b1 ob with [] => [] | _ => ["break outside a loop"] end).
 End Exec.
 
+(* the defer statements of a function *)
+Fixpoint defers_of (fuel : nat) (l : list gst) : list (nat * list gst) :=
+  match fuel with
+  | O => []
+  | S f =>
+      flat_map (fun g => match g with
+                         | GDefer n b => (n, b) :: defers_of f b
+                         | GIf t e | GGetIf t e | GIfVar _ _ t e => defers_of f t ++ defers_of f e
+                         | GAlt cs => flat_map (defers_of f) cs
+                         | GLoop b | GClosure b | GInline b => defers_of f b
+                         | _ => []
+                         end) l
+  end.
+
 Definition gate_violations (tbl : list (string * string * list gst)) : list (string * string) :=
-  List.concat (map (fun e => match e with (fn, kind, body) => map (fun m => (fn, m)) (check_frame fn kind body) end) tbl).
+  List.concat (map (fun e => match e with (fn, kind, body) =>
+                                map (fun m => (fn, m)) (check_frame fn (defers_of (lsize body) body) kind body) end) tbl).
 
 (* what the table has to contain for the check to mean anything *)
 Fixpoint mentions (p : gst -> bool) (l : list gst) (fuel : nat) : bool :=
@@ -172,9 +268,9 @@ Fixpoint mentions (p : gst -> bool) (l : list gst) (fuel : nat) : bool :=
   | O => false
   | S f =>
       existsb (fun g => p g || match g with
-                              | GIf t e | GGetIf t e => mentions p t f || mentions p e f
+                              | GIf t e | GGetIf t e | GIfVar _ _ t e => mentions p t f || mentions p e f
                               | GAlt cs => existsb (fun c => mentions p c f) cs
-                              | GLoop b | GClosure b | GInline b | GDefer b => mentions p b f
+                              | GLoop b | GClosure b | GInline b | GDefer _ b => mentions p b f
                               | _ => false
                               end) l
   end.
